@@ -103,7 +103,6 @@ class Seams(object):
                 p = os.fspath(file)
                 if isinstance(p, bytes):
                     p = p.decode('utf8', 'replace')
-                seams.opened.append(p)
                 if p.endswith('.json'):
                     seams.json_opens += 1
                     if seams.fault is not None and seams.fault[0] == seams.json_opens:
@@ -113,7 +112,13 @@ class Seams(object):
                         import io
                         data = real_open(file, *a, **k).read()
                         return io.StringIO(data[:max(1, len(data) // 3)])
-            return real_open(file, *a, **k)
+            f = real_open(file, *a, **k)
+            # (recorded only once it *has* been opened: a spelling that resolves to nothing is tried
+            #  relative to the neutral cwd and fails with FileNotFoundError - no file outside the repository
+            #  was read by that)
+            if isinstance(file, (str, bytes, os.PathLike)):
+                seams.opened.append(p)
+            return f
         builtins.open = sim_open
         import io
         io.open = sim_open
@@ -181,7 +186,34 @@ def alphabet(docs):
     return A
 
 
+def twin(path, docs):
+    """The file of the same base name in the other directory (json/X.json <-> sample-jsons/X.json), or None."""
+    base = os.path.basename(path)
+    cands = ['sample-jsons/' + base] if path.startswith('json/') else ['json/' + base]
+    for c_ in cands:
+        if c_ in docs or c_ in SCHEMAS:
+            return c_
+    return None
+
+
 def rand_call(rng, docs):
+    c_ = _rand_call(rng, docs)
+    # cross use, 12 %: a schema file is a JSON document too, and a sample document can be (mis)used as a
+    # schema - the helpers accept any file in either role, so the histories do as well
+    if rng.random() < 0.12:
+        if c_[0] == 'sv':
+            d = rng.choice(docs)
+            return ('sv', d, rng.choice(['rel', 'rel', 'abs']), c_[3], c_[4])
+        x = rng.random()
+        if x < 0.5:
+            s_ = rng.choice(SCHEMAS[:7])
+            return ('va', s_, 'rel', rng.choice([s_, c_[3], 'json/metaschema.json']), 'rel', c_[5])
+        d = rng.choice(docs)
+        return ('va', rng.choice([c_[1], d, twin(d, docs) or d]), 'rel', d, 'rel', c_[5])
+    return c_
+
+
+def _rand_call(rng, docs):
     if rng.random() < 0.45:
         s = rng.choice(SCHEMAS[:7] if rng.random() < 0.7 else SCHEMAS)
         x = rng.random()
@@ -190,7 +222,7 @@ def rand_call(rng, docs):
     d = rng.choice(docs)
     x = rng.random()
     if x < 0.55:
-        s = own_schema(d)
+        s = own_schema(d) or rng.choice(SCHEMAS[:7])
     elif x < 0.75:
         s = 'json/metaschema.json'
     else:
@@ -205,8 +237,20 @@ def rand_call(rng, docs):
     return ('va', d, sp[0], s, sp[1], rng.random() < 0.35)
 
 
-def flip(rng, call):
-    """A call colliding with `call` on the cache key (or nearly): other expectation / validator / spelling."""
+def flip(rng, call, docs=None):
+    """A call colliding with `call` on the cache key (or nearly): other expectation / validator / spelling /
+    the file of the same name in the other directory."""
+    if docs is not None and rng.random() < 0.1:
+        if call[0] == 'sv':
+            t = twin(call[1], docs)
+            if t:
+                return ('sv', t, 'rel', call[3], call[4])
+        else:
+            which = rng.choice([1, 3])
+            t = twin(call[which], docs)
+            if t:
+                c2 = list(call); c2[which] = t; c2[which + 1] = 'rel'
+                return tuple(c2)
     x = rng.random()
     if call[0] == 'sv':
         if x < 0.6:
@@ -283,7 +327,7 @@ def _gen_history(rng, docs):
                     break
                 calls[0] = rand_call(rng, docs)
         while len(calls) < n:
-            calls.append(flip(rng, rng.choice(calls)) if rng.random() < 0.75 else rand_call(rng, docs))
+            calls.append(flip(rng, rng.choice(calls), docs) if rng.random() < 0.75 else rand_call(rng, docs))
         return 'short', calls
     pat = rng.choice(['random', 'fill-then-probe', 'thrash'])
     n = rng.randint(21, 80)
@@ -291,7 +335,7 @@ def _gen_history(rng, docs):
         calls = [rand_call(rng, docs) for _ in range(n)]
         for i in range(3, n):
             if rng.random() < 0.25:
-                calls[i] = flip(rng, rng.choice(calls[:i]))
+                calls[i] = flip(rng, rng.choice(calls[:i]), docs)
         return 'long-random', calls
     if pat == 'fill-then-probe':
         which = rng.choice(['sv', 'va'])
@@ -304,7 +348,7 @@ def _gen_history(rng, docs):
                 continue
             c = c[:-1] + (False,)
             seen.add(cache_key(c)); fill.append(c)
-        probes = [flip(rng, rng.choice(fill)) if rng.random() < 0.8 else rand_call(rng, docs)
+        probes = [flip(rng, rng.choice(fill), docs) if rng.random() < 0.8 else rand_call(rng, docs)
                   for _ in range(max(4, n - len(fill)))]
         return 'long-fill-then-probe', fill + probes
     # thrash: alternate a few keys around the limit
